@@ -4,18 +4,10 @@
 package e6modfile
 
 import (
-	"fmt"
-	"go/ast"
-	"go/constant"
-	"go/token"
 	"go/types"
-	"os"
-	"sort"
-	"strings"
 
 	"golang.org/x/tools/go/ssa"
 
-	"verif/sa/internal/e5path"
 	"verif/sa/internal/load"
 	"verif/sa/internal/oblig"
 )
@@ -32,201 +24,6 @@ func staticName(v ssa.Value) (string, *ssa.Call) {
 	return c.Pkg.Pkg.Path() + "." + c.Name(), call
 }
 
-func constStr(v ssa.Value) (string, bool) {
-	c, ok := v.(*ssa.Const)
-	if !ok || c.Value == nil || c.Value.Kind() != constant.String {
-		return "", false
-	}
-	return constant.StringVal(c.Value), true
-}
-
-func structName(t types.Type) string {
-	if p, ok := t.Underlying().(*types.Pointer); ok {
-		t = p.Elem()
-	}
-	if n, ok := t.(*types.Named); ok {
-		return n.Obj().Name()
-	}
-	return ""
-}
-
-// literal: an Alloc (or value built field by field) of a named struct, with the values stored per field. A literal
-// made inside a helper or a local closure of the analysed function is one instance per call, the helper's
-// parameters and the closure's captured variables bound to what the caller passes.
-type literal struct {
-	alloc  *ssa.Alloc
-	name   string
-	fields map[string]ssa.Value
-	pos    token.Pos
-	env    map[ssa.Value]ssa.Value
-	site   *ssa.BasicBlock   // where the instance comes into being in the analysed function
-	inner  []*ssa.BasicBlock // the blocks inside helpers that lead to it (outermost first)
-	retOf  *ssa.Function     // the helper that returns this literal as its first result together with a nil error
-	call   *ssa.Call         // the call (in the analysed function) through which the instance exists
-}
-
-func envPath(v ssa.Value, env map[ssa.Value]ssa.Value) string {
-	return e5path.WithBindings(v, env)
-}
-
-func fieldsOf(al *ssa.Alloc) map[string]ssa.Value {
-	out := map[string]ssa.Value{}
-	t, ok := al.Type().Underlying().(*types.Pointer).Elem().Underlying().(*types.Struct)
-	if !ok || al.Referrers() == nil {
-		return out
-	}
-	for _, ref := range *al.Referrers() {
-		fa, ok := ref.(*ssa.FieldAddr)
-		if !ok || fa.Referrers() == nil {
-			continue
-		}
-		for _, r2 := range *fa.Referrers() {
-			if st, ok := r2.(*ssa.Store); ok {
-				out[t.Field(fa.Field).Name()] = st.Val
-			}
-		}
-	}
-	return out
-}
-
-// closureOf resolves the callee of a call of a local closure.
-func closureOf(v ssa.Value) *ssa.MakeClosure {
-	switch x := v.(type) {
-	case *ssa.MakeClosure:
-		return x
-	case *ssa.UnOp:
-		if al, ok := x.X.(*ssa.Alloc); ok && al.Referrers() != nil {
-			var found *ssa.MakeClosure
-			for _, ref := range *al.Referrers() {
-				if st, ok := ref.(*ssa.Store); ok && st.Addr == ssa.Value(al) {
-					mc, isMC := st.Val.(*ssa.MakeClosure)
-					if !isMC || found != nil {
-						return nil
-					}
-					found = mc
-				}
-			}
-			return found
-		}
-	}
-	return nil
-}
-
-func literalsOf(root *ssa.Function, names map[string]bool) []literal {
-	var out []literal
-	var walk func(fn *ssa.Function, env map[ssa.Value]ssa.Value, site *ssa.BasicBlock, inner []*ssa.BasicBlock, via *ssa.Call, depth int)
-	walk = func(fn *ssa.Function, env map[ssa.Value]ssa.Value, site *ssa.BasicBlock, inner []*ssa.BasicBlock, via *ssa.Call, depth int) {
-		ei := -1
-		res := fn.Signature.Results()
-		for i := 0; i < res.Len(); i++ {
-			t := res.At(i).Type()
-			if types.Implements(t, errIface()) {
-				ei = i
-			}
-		}
-		for _, b := range fn.Blocks {
-			for _, in := range b.Instrs {
-				switch x := in.(type) {
-				case *ssa.Alloc:
-					if !names[structName(x.Type())] {
-						continue
-					}
-					l := literal{alloc: x, name: structName(x.Type()), fields: fieldsOf(x), pos: x.Pos(), env: env, site: site, call: via}
-					if fn == root {
-						l.site = b
-					} else {
-						l.inner = append(append([]*ssa.BasicBlock{}, inner...), b)
-						l.pos = via.Pos()
-						// returned as the first result together with a nil error?
-						if x.Referrers() != nil && ei > 0 {
-							for _, ref := range *x.Referrers() {
-								ld, ok := ref.(*ssa.UnOp)
-								if !ok || ld.Referrers() == nil {
-									continue
-								}
-								for _, r2 := range *ld.Referrers() {
-									if ret, ok := r2.(*ssa.Return); ok && len(ret.Results) > ei && ret.Results[0] == ssa.Value(ld) {
-										if c, isC := ret.Results[ei].(*ssa.Const); isC && c.IsNil() {
-											l.retOf = fn
-											l.inner[len(l.inner)-1] = ret.Block()
-										}
-									}
-								}
-							}
-						}
-					}
-					out = append(out, l)
-				case *ssa.Call:
-					if depth >= 3 {
-						continue
-					}
-					var callee *ssa.Function
-					sub := map[ssa.Value]ssa.Value{}
-					for k, v := range env {
-						sub[k] = v // the enclosing contexts stay bound (arguments are rendered in them)
-					}
-					bind := func(v ssa.Value) ssa.Value {
-						for i := 0; i < 3; i++ {
-							if b2, ok := env[v]; ok && b2 != v {
-								v = b2
-								continue
-							}
-							break
-						}
-						return v
-					}
-					if h := x.Common().StaticCallee(); h != nil && h.Pkg == root.Pkg && h != root && h != fn && len(h.Blocks) > 0 && closureOf(x.Common().Value) == nil {
-						callee = h
-					} else if mc := closureOf(x.Common().Value); mc != nil {
-						if cf, ok := mc.Fn.(*ssa.Function); ok && len(cf.Blocks) > 0 {
-							callee = cf
-							for i, fv := range cf.FreeVars {
-								if i >= len(mc.Bindings) {
-									continue
-								}
-								bv := mc.Bindings[i]
-								if cell, ok := bv.(*ssa.Alloc); ok && cell.Referrers() != nil {
-									var stored ssa.Value
-									n := 0
-									for _, ref := range *cell.Referrers() {
-										if st, ok := ref.(*ssa.Store); ok && st.Addr == ssa.Value(cell) {
-											stored = st.Val
-											n++
-										}
-									}
-									if n == 1 {
-										sub[fv] = bind(stored)
-									}
-								} else {
-									sub[fv] = bind(bv)
-								}
-							}
-						}
-					}
-					if callee == nil {
-						continue
-					}
-					for i, prm := range callee.Params {
-						if i < len(x.Common().Args) {
-							sub[prm] = bind(x.Common().Args[i])
-						}
-					}
-					s2, v2 := site, via
-					in2 := inner
-					if fn == root {
-						s2, v2 = b, x
-					} else {
-						in2 = append(append([]*ssa.BasicBlock{}, inner...), b)
-					}
-					walk(callee, sub, s2, in2, v2, depth+1)
-				}
-			}
-		}
-	}
-	walk(root, nil, nil, nil, nil, 0)
-	return out
-}
-
 var errIfaceCache *types.Interface
 
 func errIface() *types.Interface {
@@ -236,487 +33,21 @@ func errIface() *types.Interface {
 	return errIfaceCache
 }
 
-// posExpr classifies a Line/Column value: "0", or "<node path>.<Field>-1", or other.
-func posExpr(v ssa.Value, env map[ssa.Value]ssa.Value) (node, field string, ok bool) {
-	if c, isC := v.(*ssa.Const); isC && c.Value != nil && c.Value.Kind() == constant.Int {
-		if c.Int64() == 0 {
-			return "", "0", true
-		}
-		return "", "", false
-	}
-	bo, isB := v.(*ssa.BinOp)
-	if !isB || bo.Op != token.SUB {
-		return "", "", false
-	}
-	c, isC := bo.Y.(*ssa.Const)
-	if !isC || c.Value == nil || c.Int64() != 1 {
-		return "", "", false
-	}
-	path := envPath(bo.X, env)
-	if os.Getenv("VERIF_E6_DEBUG") != "" {
-		ks := ""
-		for k, v := range env {
-			ks += fmt.Sprintf(" %T:%s->%s", k, k.Name(), e5path.AccessPath(v))
-		}
-		fmt.Fprintf(os.Stderr, "E6 posExpr %s => %q env{%s}\n", bo.X.Name(), path, ks)
-	}
-	i := strings.LastIndex(path, ".")
-	if i < 0 {
-		return "", "", false
-	}
-	return path[:i], path[i+1:], true
-}
-
 // Run decides all E6 rules.
 func Run(p *load.Prog, r *oblig.Report) {
-	r.Rule("R6.1", "instance-table", "every accepted path value is ReplaceAll(QueryUnescape(node.Value), \"\\\\\", \"/\") — decode first, separator normalisation outermost, nothing else in the chain", 1)
-	r.Rule("R6.2", "instance-table", "the accept site is dominated by: decode error nil, string tag, !Contains(V,\"../\"), !HasPrefix(V,\"/\"), HasSuffix(V,\".fga\") — all on the very value V that is returned", 5)
-	r.Rule("R6.4", "instance-table", "Line/Column of every property and error are the constant 0 or node.Line-1 / node.Column-1 of one node, the node whose value is reported", 8)
-	r.Rule("R6.5", "instance-table", "the schema is stored only when its value equals \"1.2\"; the manifest text reaches the YAML decoder unmodified", 2)
-	r.Rule("R5.3", "instance-table", "on every path through the contents loop exactly one thing happens: one error is appended or the entry is accepted", 1)
-	r.Rule("R5.1", "instance-table", "the manifest is returned only when the error accumulator is empty", 1)
+	r.Rule("R6.1", "path-enumeration", "every accepted path value is ReplaceAll(QueryUnescape(node.Value), \"\\\\\", \"/\") — decode first, separator normalisation outermost, nothing else in the chain", 1)
+	r.Rule("R6.2", "path-enumeration", "on every path on which an entry is accepted, these were established before: decode error nil, string tag, !Contains(V,\"../\"), !HasPrefix(V,\"/\"), HasSuffix(V,\".fga\") — all on the very value V that is returned", 5)
+	r.Rule("R6.4", "path-enumeration", "Line/Column of every property and error are the constant 0 or node.Line-1 / node.Column-1 of one node, the node whose value is reported", 8)
+	r.Rule("R6.5", "path-enumeration", "the schema is stored only when its value equals \"1.2\"; the manifest text reaches the YAML decoder unmodified", 2)
+	r.Rule("R5.3", "path-enumeration", "on every path through one iteration of the contents loop exactly one thing happens: one error is reported or the entry is accepted", 1)
+	r.Rule("R5.1", "path-enumeration", "no path on which an error is reported ends in the successful return of the manifest", 1)
 	fn := p.Func("transformer", "TransformModFile")
 	if fn == nil {
 		r.Unknown("R6.1", "anchor:TransformModFile", "-", "function not found")
 		return
 	}
-	pos := func(ps token.Pos) string { return p.Pos(ps) }
-
-	// ---- accept sites: stores of a ModFileStringProperty literal that flow into append(contents, …)
-	lits := literalsOf(fn, map[string]bool{"ModFileStringProperty": true, "ModFileArrayProperty": true, "ModFileValidationError": true})
-	var accepted []literal
-	for _, l := range lits {
-		if l.name != "ModFileStringProperty" {
-			continue
-		}
-		// is the literal's value used as an append operand?
-		inAppend := false
-		if refs := l.alloc.Referrers(); refs != nil {
-			for _, ref := range *refs {
-				if u, ok := ref.(*ssa.UnOp); ok && u.Referrers() != nil {
-					for _, r2 := range *u.Referrers() {
-						if st, ok := r2.(*ssa.Store); ok {
-							if _, isIdx := st.Addr.(*ssa.IndexAddr); isIdx {
-								inAppend = true
-							}
-						}
-					}
-				}
-			}
-		}
-		// or: returned by an item helper together with a nil error, and the helper's first result is what is appended
-		if !inAppend && l.retOf != nil && l.call != nil && l.call.Common().StaticCallee() == l.retOf && l.call.Referrers() != nil {
-			for _, ref := range *l.call.Referrers() {
-				ex, ok := ref.(*ssa.Extract)
-				if !ok || ex.Index != 0 || ex.Referrers() == nil {
-					continue
-				}
-				for _, r2 := range *ex.Referrers() {
-					st, ok := r2.(*ssa.Store)
-					if !ok {
-						continue
-					}
-					if _, isIdx := st.Addr.(*ssa.IndexAddr); !isIdx {
-						continue
-					}
-					// the append must happen only when the helper's error is nil
-					guarded := false
-					for _, ce := range e5path.DominatingConds(st.Block()) {
-						if c, isB := ce.Cond.(*ssa.BinOp); isB {
-							if e2, isEx := c.X.(*ssa.Extract); isEx && e2.Tuple == ssa.Value(l.call) && e2.Index > 0 {
-								if cn, isC := c.Y.(*ssa.Const); isC && cn.IsNil() && ((c.Op == token.NEQ && !ce.Branch) || (c.Op == token.EQL && ce.Branch)) {
-									guarded = true
-								}
-							}
-						}
-					}
-					if guarded {
-						inAppend = true
-						l.site = st.Block()
-					} else {
-						r.Bad("R6.2", "accept-guard:helper-error-nil", pos(st.Pos()), "the item returned by "+l.retOf.Name()+" is appended without testing the error it returns with it: a rejected entry is accepted")
-					}
-				}
-			}
-		}
-		if inAppend {
-			accepted = append(accepted, l)
-		}
-	}
-	if len(accepted) == 0 {
-		r.Unknown("R6.1", "anchor:accept-site", pos(fn.Pos()), "no ModFileStringProperty appended to the contents list: anchor no longer resolves")
-	}
-	for _, l := range accepted {
-		v := l.fields["Value"]
-		construct := "accepted-value-chain"
-		// outermost: strings.ReplaceAll(D, "\\", "/") — in this function, or as the successful result of a decode helper
-		okChain := false
-		var nodePath string
-		why := ""
-		chainV := v
-		var helperCall *ssa.Call // V = helper(node.Value): the chain lives in the helper
-		var helperParam *ssa.Parameter
-		if ex, ok := v.(*ssa.Extract); ok && ex.Index == 0 {
-			if hc, ok := ex.Tuple.(*ssa.Call); ok {
-				if h := hc.Common().StaticCallee(); h != nil && h.Pkg == fn.Pkg && len(h.Blocks) > 0 && h.Signature.Results().Len() == 2 {
-					for _, sr := range e5path.SuccessReturns(h) {
-						if len(sr.Results) == 2 {
-							chainV = sr.Results[0]
-							helperCall = hc
-						}
-					}
-				}
-			}
-		}
-		name, call := staticName(chainV)
-		var decodeTuple ssa.Value
-		if name == "strings.ReplaceAll" {
-			old, ok1 := constStr(call.Common().Args[1])
-			nw, ok2 := constStr(call.Common().Args[2])
-			if ok1 && ok2 && old == "\\" && nw == "/" {
-				d := call.Common().Args[0]
-				if ex, ok := d.(*ssa.Extract); ok && ex.Index == 0 {
-					dn, dcall := staticName(ex.Tuple)
-					if dn == "net/url.QueryUnescape" || dn == "net/url.PathUnescape" {
-						decodeTuple = ex.Tuple
-						srcV := dcall.Common().Args[0]
-						if prm, isP := srcV.(*ssa.Parameter); isP && helperCall != nil {
-							helperParam = prm
-							for i, q := range prm.Parent().Params {
-								if q == prm && i < len(helperCall.Common().Args) {
-									srcV = helperCall.Common().Args[i]
-								}
-							}
-						}
-						src := envPath(srcV, l.env)
-						if strings.HasSuffix(src, ".Value") {
-							okChain = true
-							nodePath = strings.TrimSuffix(src, ".Value")
-						} else {
-							why = "the decoded string is not the Value of a YAML node but " + src
-						}
-					} else {
-						why = "the value normalised is not the result of url.QueryUnescape/PathUnescape but of " + dn
-					}
-				} else {
-					why = "separator normalisation is applied to something other than the decoded value: an encoded backslash (%5C) is decoded after normalisation and survives"
-				}
-			} else {
-				why = fmt.Sprintf("ReplaceAll(%q → %q) is not the backslash normalisation", old, nw)
-			}
-		} else {
-			why = "the returned value is not the result of strings.ReplaceAll(decoded, \"\\\\\", \"/\") (outermost step must be the separator normalisation); it is " + e5path.AccessPath(chainV)
-		}
-		_ = helperParam
-		if okChain {
-			r.OK("R6.1", construct, pos(l.pos), "def-use", "V = ReplaceAll(QueryUnescape("+nodePath+".Value), \"\\\\\", \"/\")")
-		} else {
-			r.Bad("R6.1", construct, pos(l.pos), why)
-			continue
-		}
-		// ---- guards
-		type guard struct {
-			key  string
-			desc string
-		}
-		want := []guard{
-			{"decode-error-nil", "err == nil of the decode"},
-			{"string-tag", "node.Tag == \"!!str\""},
-			{"no-dotdot", "!strings.Contains(V, \"../\")"},
-			{"not-absolute", "!strings.HasPrefix(V, \"/\")"},
-			{"fga-suffix", "strings.HasSuffix(V, \".fga\")"},
-		}
-		got := map[string]bool{}
-		wrongOperand := map[string]string{}
-		// the decode error: in this function, or the error result of the decode helper (which must return the decode error itself)
-		errTuple := decodeTuple
-		if helperCall != nil {
-			errTuple = nil
-			if helperForwardsDecodeError(helperCall.Common().StaticCallee(), decodeTuple) {
-				errTuple = helperCall
-			}
-		}
-		var allConds []e5path.CondEdge
-		allConds = append(allConds, e5path.DominatingConds(l.site)...)
-		for _, ib := range l.inner {
-			allConds = append(allConds, e5path.DominatingConds(ib)...)
-		}
-		// a selector variable: `problem == ""` holds only when the variable still has its initial "" — that is, on the
-		// one way into the join on which no case assigned a message: the conditions of that way are implied
-		for _, ce := range append([]e5path.CondEdge{}, allConds...) {
-			bo, isB := ce.Cond.(*ssa.BinOp)
-			if !isB || (bo.Op != token.EQL && bo.Op != token.NEQ) {
-				continue
-			}
-			phi, isPhi := bo.X.(*ssa.Phi)
-			if s, isS := constStr(bo.Y); !isPhi || !isS || s != "" || (bo.Op == token.EQL) != ce.Branch {
-				continue
-			}
-			var emptyPred *ssa.BasicBlock
-			n := 0
-			for i, e := range phi.Edges {
-				if s, isS := constStr(e); isS && s == "" {
-					emptyPred = phi.Block().Preds[i]
-					n++
-				}
-			}
-			if n != 1 {
-				continue
-			}
-			allConds = append(allConds, e5path.DominatingConds(emptyPred)...)
-			if ifi, ok := emptyPred.Instrs[len(emptyPred.Instrs)-1].(*ssa.If); ok {
-				allConds = append(allConds, e5path.CondEdge{Cond: ifi.Cond, Branch: emptyPred.Succs[0] == phi.Block(), If: ifi})
-			}
-		}
-		for _, ce := range allConds {
-			for {
-				u, isNot := ce.Cond.(*ssa.UnOp)
-				if !isNot || u.Op != token.NOT {
-					break
-				}
-				ce.Cond, ce.Branch = u.X, !ce.Branch
-			}
-			switch c := ce.Cond.(type) {
-			case *ssa.BinOp:
-				if ex, ok := c.X.(*ssa.Extract); ok && errTuple != nil && ex.Tuple == errTuple && ex.Index == 1 {
-					if cn, ok := c.Y.(*ssa.Const); ok && cn.IsNil() && ((c.Op == token.NEQ && !ce.Branch) || (c.Op == token.EQL && ce.Branch)) {
-						got["decode-error-nil"] = true
-					}
-				}
-				if envPath(c.X, l.env) == nodePath+".Tag" {
-					if s, ok := constStr(c.Y); ok && s == "!!str" && ((c.Op == token.NEQ && !ce.Branch) || (c.Op == token.EQL && ce.Branch)) {
-						got["string-tag"] = true
-					}
-				}
-			case *ssa.Call:
-				type fact struct {
-					call    *ssa.Call
-					branch  bool
-					operand ssa.Value
-				}
-				facts := []fact{{c, ce.Branch, nil}}
-				// a boolean helper of the package: what its result implies about the library tests it makes on its parameter
-				if h := c.Common().StaticCallee(); h != nil && h.Pkg == fn.Pkg && len(h.Blocks) > 0 && len(h.Params) == len(c.Common().Args) {
-					facts = nil
-					for _, im := range impliedTests(h, ce.Branch) {
-						var operand ssa.Value
-						if prm, isP := im.call.Common().Args[0].(*ssa.Parameter); isP {
-							for i, q := range h.Params {
-								if q == prm {
-									operand = c.Common().Args[i]
-								}
-							}
-						}
-						facts = append(facts, fact{im.call, im.branch, operand})
-					}
-				}
-				for _, f := range facts {
-					n, cc := staticName(f.call)
-					if cc == nil || len(cc.Common().Args) != 2 {
-						continue
-					}
-					arg, _ := constStr(cc.Common().Args[1])
-					key := ""
-					switch {
-					case n == "strings.Contains" && arg == "../" && !f.branch:
-						key = "no-dotdot"
-					case n == "strings.HasPrefix" && arg == "/" && !f.branch:
-						key = "not-absolute"
-					case n == "strings.HasSuffix" && arg == ".fga" && f.branch:
-						key = "fga-suffix"
-					}
-					if key == "" {
-						continue
-					}
-					operand := cc.Common().Args[0]
-					if f.operand != nil {
-						operand = f.operand
-					}
-					if operand == v {
-						got[key] = true
-					} else {
-						wrongOperand[key] = e5path.AccessPath(operand)
-					}
-				}
-			}
-		}
-		for _, g := range want {
-			construct := "accept-guard:" + g.key
-			switch {
-			case got[g.key]:
-				r.OK("R6.2", construct, pos(l.pos), "dominating-condition", g.desc)
-			case wrongOperand[g.key] != "":
-				r.Bad("R6.2", construct, pos(l.pos), "the guard "+g.desc+" is applied to "+wrongOperand[g.key]+", not to the value V that is returned: a spelling that differs between the two slips through")
-			default:
-				r.Bad("R6.2", construct, pos(l.pos), "the accept site is not dominated by "+g.desc)
-			}
-		}
-		// positions of the accepted entry must be those of the same node
-		for _, f := range []string{"Line", "Column"} {
-			node, fld, ok := posExpr(l.fields[f], l.env)
-			construct := "position:accepted-entry:" + f
-			if ok && node == nodePath && fld == f {
-				r.OK("R6.4", construct, pos(l.pos), "same-node", node+"."+f+" - 1")
-			} else {
-				r.Bad("R6.4", construct, pos(l.pos), fmt.Sprintf("%s of an accepted entry is %s, expected %s.%s - 1 (zero-based position of the node the value came from)", f, describePos(node, fld, ok), nodePath, f))
-			}
-		}
-	}
-	// ---- positions of all other literals
-	n := 0
-	for _, l := range lits {
-		isAccepted := false
-		for _, a := range accepted {
-			if a.alloc == l.alloc {
-				isAccepted = true
-			}
-		}
-		if isAccepted {
-			continue
-		}
-		n++
-		ln, lf, ok1 := posExpr(l.fields["Line"], l.env)
-		cn, cf, ok2 := posExpr(l.fields["Column"], l.env)
-		construct := fmt.Sprintf("position:%s", l.name)
-		switch {
-		case !ok1 || !ok2:
-			r.Bad("R6.4", construct, pos(l.pos), "Line/Column are neither the constant 0 nor node.Line-1 / node.Column-1")
-		case lf == "0" && cf == "0":
-			r.OK("R6.4", construct, pos(l.pos), "zero", "no node to point at")
-		case ln != cn || lf != "Line" || cf != "Column":
-			r.Bad("R6.4", construct, pos(l.pos), fmt.Sprintf("Line is %s and Column is %s: they must be Line-1 and Column-1 of the same node", describePos(ln, lf, ok1), describePos(cn, cf, ok2)))
-		default:
-			// the node must be the one whose Value/Tag the literal reports or the enclosing branch examined
-			okNode := true
-			if val, has := l.fields["Value"]; has && l.name == "ModFileStringProperty" {
-				if vp := envPath(val, l.env); vp != ln+".Value" {
-					okNode = false
-				}
-			}
-			if msg, has := l.fields["Msg"]; has {
-				// messages that quote a node's value must quote the node they point at
-				if prm, isP := msg.(*ssa.Parameter); isP && l.env[prm] != nil {
-					msg = l.env[prm] // the message is built by the caller of the constructor helper
-				}
-				if bo, isB := msg.(*ssa.BinOp); isB {
-					if q := envPath(bo.Y, l.env); strings.HasSuffix(q, ".Value") && q != ln+".Value" {
-						okNode = false
-						if os.Getenv("VERIF_E6_DEBUG") != "" {
-							fmt.Fprintf(os.Stderr, "E6 msg path %q vs position node %q\n", q, ln)
-						}
-					}
-				}
-			}
-			if okNode {
-				r.OK("R6.4", construct, pos(l.pos), "same-node", ln)
-			} else {
-				r.Bad("R6.4", construct, pos(l.pos), "the position points at "+ln+" but the value reported belongs to another node")
-			}
-		}
-	}
-	// ---- schema
-	for _, b := range fn.Blocks {
-		for _, in := range b.Instrs {
-			st, ok := in.(*ssa.Store)
-			if !ok || !strings.HasSuffix(e5path.AccessPath(st.Addr), ".Schema") || structName(st.Val.Type()) != "ModFileStringProperty" {
-				continue
-			}
-			okSchema := false
-			for _, ce := range e5path.DominatingConds(b) {
-				if bo, isB := ce.Cond.(*ssa.BinOp); isB && strings.HasSuffix(e5path.AccessPath(bo.X), ".Schema.Value") {
-					if s, isS := constStr(bo.Y); isS && s == "1.2" && ((bo.Op == token.NEQ && !ce.Branch) || (bo.Op == token.EQL && ce.Branch)) {
-						okSchema = true
-					}
-				}
-			}
-			// the property comes from a schema helper together with a nil error: the store happens only on the nil
-			// error, and the helper returns a nil error only under Value == "1.2" (its parameter bound to the schema node)
-			if ex, isEx := st.Val.(*ssa.Extract); isEx && !okSchema && ex.Index == 0 {
-				if hc, isCall := ex.Tuple.(*ssa.Call); isCall {
-					errNil := false
-					for _, ce := range e5path.DominatingConds(b) {
-						if c, isB := ce.Cond.(*ssa.BinOp); isB {
-							if e2, isE2 := c.X.(*ssa.Extract); isE2 && e2.Tuple == ssa.Value(hc) && e2.Index > 0 {
-								if cn, isC := c.Y.(*ssa.Const); isC && cn.IsNil() && ((c.Op == token.NEQ && !ce.Branch) || (c.Op == token.EQL && ce.Branch)) {
-									errNil = true
-								}
-							}
-						}
-					}
-					for _, l := range lits {
-						if l.retOf == nil || l.call != hc || !errNil {
-							continue
-						}
-						for _, ib := range l.inner {
-							for _, ce := range e5path.DominatingConds(ib) {
-								if bo, isB := ce.Cond.(*ssa.BinOp); isB && strings.HasSuffix(envPath(bo.X, l.env), ".Schema.Value") {
-									if s, isS := constStr(bo.Y); isS && s == "1.2" && ((bo.Op == token.NEQ && !ce.Branch) || (bo.Op == token.EQL && ce.Branch)) {
-										okSchema = true
-									}
-								}
-							}
-						}
-					}
-				}
-			}
-			if okSchema {
-				r.OK("R6.5", "schema-is-1.2", pos(st.Pos()), "dominating-condition", "Schema.Value == \"1.2\"")
-			} else {
-				r.Bad("R6.5", "schema-is-1.2", pos(st.Pos()), "the schema property is stored without the guard Schema.Value == \"1.2\"")
-			}
-		}
-	}
-	// manifest text reaches the decoder unmodified
-	foundUnmarshal := false
-	for _, b := range fn.Blocks {
-		for _, in := range b.Instrs {
-			nme, call := staticName(valueOf(in))
-			if nme != "gopkg.in/yaml.v3.Unmarshal" {
-				continue
-			}
-			foundUnmarshal = true
-			arg := call.Common().Args[0]
-			okArg := false
-			if cv, ok := arg.(*ssa.Convert); ok {
-				if prm, ok := cv.X.(*ssa.Parameter); ok && prm.Parent() == fn {
-					okArg = true
-				}
-			}
-			if okArg {
-				r.OK("R6.5", "decoder-input-verbatim", pos(call.Pos()), "def-use", "yaml.Unmarshal([]byte(data), …) with data the parameter itself")
-			} else {
-				r.Bad("R6.5", "decoder-input-verbatim", pos(call.Pos()), "the text handed to the YAML decoder is not the parameter itself ("+e5path.AccessPath(arg)+"): reported lines and columns no longer refer to the caller's text")
-			}
-		}
-	}
-	if !foundUnmarshal {
-		r.Unknown("R6.5", "decoder-input-verbatim", pos(fn.Pos()), "no yaml.Unmarshal call found")
-	}
-	// ---- success return guarded by the accumulator
-	for _, ret := range e5path.SuccessReturns(fn) {
-		okRet := false
-		for _, ce := range e5path.DominatingConds(ret.Block()) {
-			if bo, isB := ce.Cond.(*ssa.BinOp); isB {
-				if call, isCall := bo.X.(*ssa.Call); isCall {
-					if bi, isBi := call.Common().Value.(*ssa.Builtin); isBi && bi.Name() == "len" && strings.HasSuffix(e5path.AccessPath(call.Common().Args[0]), ".Errors") {
-						if c, isC := bo.Y.(*ssa.Const); isC && c.Int64() == 0 && ((bo.Op == token.NEQ && !ce.Branch) || (bo.Op == token.EQL && ce.Branch)) {
-							okRet = true
-						}
-					}
-				}
-			}
-		}
-		// the early return of the decoder's error has a nil first result; skip returns whose first result is nil
-		if c, isC := ret.Results[0].(*ssa.Const); isC && c.IsNil() {
-			continue
-		}
-		if okRet {
-			r.OK("R5.1", "success-guard:TransformModFile", pos(ret.Pos()), "dominating-condition", "len(errors.Errors) == 0")
-		} else {
-			r.Bad("R5.1", "success-guard:TransformModFile", pos(ret.Pos()), "the manifest is returned without the guard len(errors.Errors) == 0: a rejected entry can be silently filtered")
-		}
-	}
-	loopPaths(p, r)
+	// all rules are decided on the enumerated paths of TransformModFile (helpers and closures followed): see e6x.go
+	RunPaths(p, r, fn)
 }
 
 func valueOf(in ssa.Instruction) ssa.Value {
@@ -734,341 +65,4 @@ func describePos(node, fld string, ok bool) string {
 		return "0"
 	}
 	return node + "." + fld + " - 1"
-}
-
-// loopPaths (R5.3) enumerates the structured paths through the body of the contents loop and counts
-// error appends and accepts on each.
-func loopPaths(p *load.Prog, r *oblig.Report) {
-	fd, pk := p.FuncDecl("transformer", "TransformModFile")
-	if fd == nil {
-		return
-	}
-	info := pk.TypesInfo
-	var loop *ast.RangeStmt
-	ast.Inspect(fd.Body, func(n ast.Node) bool {
-		if rs, ok := n.(*ast.RangeStmt); ok && loop == nil {
-			// the loop over the items of the contents node: the only range over a list of YAML nodes
-			if tv, ok := info.Types[rs.X]; ok {
-				if sl, isSlice := tv.Type.Underlying().(*types.Slice); isSlice && strings.HasSuffix(sl.Elem().String(), "yaml.v3.Node") {
-					loop = rs
-				}
-			}
-		}
-		return true
-	})
-	construct := "one-outcome-per-entry:contents-loop"
-	if loop == nil {
-		r.Unknown("R5.3", construct, p.Pos(fd.Pos()), "the loop over Contents.Content was not found")
-		return
-	}
-	type path struct {
-		errs, accepts int
-		done          bool
-		trace         []string
-	}
-	undecided := ""
-	isAppendTo := func(as *ast.AssignStmt) string {
-		if len(as.Lhs) != 1 || len(as.Rhs) != 1 {
-			return ""
-		}
-		call, ok := as.Rhs[0].(*ast.CallExpr)
-		if !ok {
-			return ""
-		}
-		lhs := types.ExprString(as.Lhs[0])
-		if sel, ok := call.Fun.(*ast.SelectorExpr); ok && sel.Sel.Name == "Append" && len(call.Args) >= 1 && types.ExprString(call.Args[0]) == lhs {
-			if tv, ok := info.Types[as.Lhs[0]]; ok && strings.Contains(tv.Type.String(), "multierror.Error") {
-				return "error"
-			}
-		}
-		if id, ok := call.Fun.(*ast.Ident); ok && id.Name == "append" && len(call.Args) >= 1 && types.ExprString(call.Args[0]) == lhs {
-			if tv, ok := info.Types[as.Lhs[0]]; ok && strings.Contains(tv.Type.String(), "ModFileStringProperty") {
-				return "accept"
-			}
-		}
-		return ""
-	}
-	// reportsViaHelper: the callee is a function literal bound to a local (or a function of the package) whose body
-	// appends to the error accumulator on every path (its top-level statements)
-	reportsViaHelper := func(call *ast.CallExpr) bool {
-		id, ok := call.Fun.(*ast.Ident)
-		if !ok {
-			return false
-		}
-		obj := info.Uses[id]
-		var body *ast.BlockStmt
-		ast.Inspect(fd, func(n ast.Node) bool {
-			switch x := n.(type) {
-			case *ast.AssignStmt:
-				for i, l := range x.Lhs {
-					if lid, ok := l.(*ast.Ident); ok && info.Defs[lid] == obj && i < len(x.Rhs) {
-						if fl, ok := x.Rhs[i].(*ast.FuncLit); ok {
-							body = fl.Body
-						}
-					}
-				}
-			}
-			return true
-		})
-		if body == nil {
-			for _, f := range pk.Syntax {
-				for _, d := range f.Decls {
-					if hd, ok := d.(*ast.FuncDecl); ok && hd.Body != nil && info.Defs[hd.Name] == obj {
-						body = hd.Body
-					}
-				}
-			}
-		}
-		if body == nil {
-			return false
-		}
-		for _, st := range body.List {
-			if as, ok := st.(*ast.AssignStmt); ok && isAppendTo(as) == "error" {
-				return true
-			}
-		}
-		return false
-	}
-	var walk func(stmts []ast.Stmt, in []path) []path
-	walk = func(stmts []ast.Stmt, in []path) []path {
-		cur := in
-		for _, st := range stmts {
-			var live, finished []path
-			for _, pt := range cur {
-				if pt.done {
-					finished = append(finished, pt)
-				} else {
-					live = append(live, pt)
-				}
-			}
-			if len(live) == 0 {
-				return cur
-			}
-			switch s := st.(type) {
-			case *ast.AssignStmt:
-				switch isAppendTo(s) {
-				case "error":
-					for i := range live {
-						live[i].errs++
-					}
-				case "accept":
-					for i := range live {
-						live[i].accepts++
-					}
-				}
-			case *ast.BranchStmt:
-				if s.Tok == token.CONTINUE {
-					for i := range live {
-						live[i].done = true
-					}
-				} else {
-					undecided = "branch statement " + s.Tok.String() + " in the loop body"
-				}
-			case *ast.IfStmt:
-				thenP := walk(s.Body.List, clonePaths(live))
-				var elseP []path
-				switch e := s.Else.(type) {
-				case nil:
-					elseP = clonePaths(live)
-				case *ast.BlockStmt:
-					elseP = walk(e.List, clonePaths(live))
-				case *ast.IfStmt:
-					elseP = walk([]ast.Stmt{e}, clonePaths(live))
-				}
-				live = append(thenP, elseP...)
-			case *ast.BlockStmt:
-				live = walk(s.List, live)
-			case *ast.ExprStmt:
-				// a call of a local closure (or package helper) whose body appends to the error accumulator
-				if call, ok := s.X.(*ast.CallExpr); ok && reportsViaHelper(call) {
-					for i := range live {
-						live[i].errs++
-					}
-				}
-			case *ast.SwitchStmt:
-				// each clause is one way through; without a default the item may pass on untouched
-				var outP []path
-				hasDefault := false
-				for _, c := range s.Body.List {
-					cc := c.(*ast.CaseClause)
-					if cc.List == nil {
-						hasDefault = true
-					}
-					outP = append(outP, walk(cc.Body, clonePaths(live))...)
-				}
-				if !hasDefault {
-					outP = append(outP, clonePaths(live)...)
-				}
-				live = outP
-			case *ast.DeclStmt, *ast.EmptyStmt:
-			default:
-				undecided = fmt.Sprintf("statement %T in the loop body (nested loops are not enumerated)", st)
-			}
-			cur = append(finished, live...)
-		}
-		return cur
-	}
-	paths := walk(loop.Body.List, []path{{}})
-	if undecided != "" {
-		r.Unknown("R5.3", construct, p.Pos(loop.Pos()), "cannot enumerate the paths of the loop body: "+undecided)
-		return
-	}
-	hist := map[string]int{}
-	bad := 0
-	for _, pt := range paths {
-		k := fmt.Sprintf("errors=%d accepts=%d", pt.errs, pt.accepts)
-		hist[k]++
-		if pt.errs+pt.accepts != 1 {
-			bad++
-		}
-	}
-	var keys []string
-	for k, v := range hist {
-		keys = append(keys, fmt.Sprintf("%s ×%d", k, v))
-	}
-	sort.Strings(keys)
-	if bad == 0 {
-		r.OK("R5.3", construct, p.Pos(loop.Pos()), "path-enumeration", fmt.Sprintf("%d structured paths: %s", len(paths), strings.Join(keys, "; ")))
-	} else {
-		r.Bad("R5.3", construct, p.Pos(loop.Pos()), fmt.Sprintf("%d of %d paths through the loop body do not produce exactly one outcome (%s): an offending entry is skipped silently or reported more than once", bad, len(paths), strings.Join(keys, "; ")))
-	}
-}
-
-func clonePaths[T any](in []T) []T { return append([]T(nil), in...) }
-
-// helperForwardsDecodeError: every return of h with a nil error is dominated by the decode error being nil
-// (so a nil error of the helper means the decode succeeded).
-func helperForwardsDecodeError(h *ssa.Function, decodeTuple ssa.Value) bool {
-	if h == nil || decodeTuple == nil {
-		return false
-	}
-	rets := e5path.SuccessReturns(h)
-	if len(rets) == 0 {
-		return false
-	}
-	for _, ret := range rets {
-		ok := false
-		for _, ce := range e5path.DominatingConds(ret.Block()) {
-			if c, isB := ce.Cond.(*ssa.BinOp); isB {
-				if ex, isEx := c.X.(*ssa.Extract); isEx && ex.Tuple == decodeTuple && ex.Index == 1 {
-					if cn, isC := c.Y.(*ssa.Const); isC && cn.IsNil() && ((c.Op == token.NEQ && !ce.Branch) || (c.Op == token.EQL && ce.Branch)) {
-						ok = true
-					}
-				}
-			}
-		}
-		if !ok {
-			return false
-		}
-	}
-	return true
-}
-
-type impliedTest struct {
-	call   *ssa.Call
-	branch bool
-}
-
-// impliedTests: the library predicate calls whose outcome is determined whenever the boolean helper h
-// returns want (facts common to every way of returning want). Handles straight returns of a call,
-// negation, and short-circuit && / || (compiled to phis).
-func impliedTests(h *ssa.Function, want bool) []impliedTest {
-	var all [][]impliedTest
-	for _, b := range h.Blocks {
-		ret, ok := b.Instrs[len(b.Instrs)-1].(*ssa.Return)
-		if !ok || len(ret.Results) != 1 {
-			continue
-		}
-		base := pathTests(b)
-		for _, alt := range valueTests(ret.Results[0], want, 0) {
-			if alt == nil {
-				continue // this way of producing the value cannot yield want
-			}
-			all = append(all, append(append([]impliedTest{}, base...), alt.tests...))
-		}
-	}
-	if len(all) == 0 {
-		return nil
-	}
-	// intersection over the alternatives
-	var out []impliedTest
-	for _, t := range all[0] {
-		inAll := true
-		for _, other := range all[1:] {
-			found := false
-			for _, o := range other {
-				if o == t {
-					found = true
-				}
-			}
-			if !found {
-				inAll = false
-			}
-		}
-		if inAll {
-			out = append(out, t)
-		}
-	}
-	return out
-}
-
-type testAlt struct{ tests []impliedTest }
-
-func pathTests(b *ssa.BasicBlock) []impliedTest {
-	var out []impliedTest
-	for _, ce := range e5path.DominatingConds(b) {
-		for _, alt := range valueTests(ce.Cond, ce.Branch, 0) {
-			if alt != nil {
-				out = append(out, alt.tests...)
-				break
-			}
-		}
-	}
-	return out
-}
-
-// valueTests: the ways v can have the boolean value want, each with the predicate calls it fixes; a nil entry is an impossible way.
-func valueTests(v ssa.Value, want bool, depth int) []*testAlt {
-	if depth > 6 {
-		return []*testAlt{{}}
-	}
-	switch x := v.(type) {
-	case *ssa.Const:
-		if x.Value != nil && (x.Value.String() == "true") == want {
-			return []*testAlt{{}}
-		}
-		return []*testAlt{nil}
-	case *ssa.Call:
-		return []*testAlt{{tests: []impliedTest{{x, want}}}}
-	case *ssa.UnOp:
-		if x.Op == token.NOT {
-			return valueTests(x.X, !want, depth+1)
-		}
-	case *ssa.Phi:
-		var out []*testAlt
-		for i, e := range x.Edges {
-			pred := x.Block().Preds[i]
-			base := pathTests(pred)
-			if ifi, ok := pred.Instrs[len(pred.Instrs)-1].(*ssa.If); ok {
-				br := pred.Succs[0] == x.Block()
-				for _, alt := range valueTests(ifi.Cond, br, depth+1) {
-					if alt != nil {
-						base = append(base, alt.tests...)
-						break
-					}
-				}
-			}
-			for _, alt := range valueTests(e, want, depth+1) {
-				if alt == nil {
-					continue
-				}
-				out = append(out, &testAlt{tests: append(append([]impliedTest{}, base...), alt.tests...)})
-			}
-		}
-		if len(out) == 0 {
-			return []*testAlt{nil}
-		}
-		return out
-	}
-	return []*testAlt{{}}
 }
